@@ -100,6 +100,8 @@ def gen_plan(rng, tier, index=0):
             variant_seed = prev["seed"]
         else:
             variant_seed = None
+        if params.get("nx") == 1:
+            params["nx"] = 2          # a 1x1 screen holds only the piston mode, which is removed: it is 0 for every seed
         if kind in ("FT", "FTSH") and g == 0 and rng.chance(0.012 if tier != "thorough" else 0.03):
             params = dict(params, N=1024)            # a big screen: code paths that only large arrays take
         rows = 0 if kind in ("FT", "FTSH") else (r.randint(20, 60 if tier != "thorough" else 300) if long_run and g == 0 else r.randint(0, 6))
